@@ -472,12 +472,11 @@ def check_events(events, pre, post, writes, rec, counters, suppressed=False,
           tuple(k.keys): v for k, v in payload.items()}
     info = pre.get(node)
     if info is None:
-      if kind == 'bound':
-        counters['construction_bound_events'] += 1   # __init__ of a new object
-        continue
-      problems.append(('unexpected-event',
-                       f'{type(node).__name__} that was not in the tree before '
-                       f'the call received a change event {list(pl or ())!r:.200}'))
+      # Not in the tree before the call: the __init__ of a new object, or a
+      # value being inserted that the library completes (e.g. defaults of a
+      # typed dict filled in) and that tells its own callback so. The
+      # property speaks about the nodes of the tree the call was made on.
+      counters['events_of_new_values'] += 1
       continue
     seq.append((info, kind, pl))
   counters['events_recorded'] += len(seq)
